@@ -271,7 +271,7 @@ def ss_case(rep, drv, rng, th):
 				 py={'avg': avg, 'se': se, 'analytical': ana}, oracle=bool(bad), theorem=THEOREM if not diffs else None)
 
 
-def serial_case(rep, drv, rng, th, no_transit=None):
+def serial_case(rep, drv, rng, th, no_transit=None, overstock=None):
 	from stockpyl import ssm_serial
 	from stockpyl.supply_chain_network import echelon_to_local_base_stock_levels
 	import props.c07 as c07
@@ -297,6 +297,10 @@ def serial_case(rep, drv, rng, th, no_transit=None):
 			warnings.simplefilter('ignore')
 			Sopt, _ = ssm_serial.optimize_base_stock_levels(**kw)
 			Sech = {j: int(Sopt[j]) + rng.choice([0, 0, -2, 1, 3]) for j in Sopt}
+			if overstock if overstock is not None else rng.random() < .3:
+				# "base-stock levels at and away from the optimum": the source stage heavily overstocked (beyond mean + 8 sd of the total lead-time demand)
+				tot = lam * sum(Ls)
+				Sech[N] = int(tot + 11 * math.sqrt(tot)) + 3; rep.count('serial:source-stage-overstocked')
 			for j in range(2, N + 1):
 				Sech[j] = max(Sech[j], Sech[j - 1])                                         # non-negative local levels
 			ana = ssm_serial.expected_cost(Sech, **kw)
@@ -400,7 +404,7 @@ def run(rep, drv):
 	for k in range(40 if th else 8):
 		ss_case(rep, drv, rng, th)
 	for k in range(12 if th else 4):
-		serial_case(rep, drv, rng, th, no_transit=(k % 2 == 1))
+		serial_case(rep, drv, rng, th, no_transit=(k % 2 == 1), overstock=(k % 4 == 0))
 
 
 def replay(rep, drv, doc):
